@@ -57,7 +57,8 @@ class C05(object):
                          'embedded.form.term_ratio', 'embedded.form.string_rhs', 'embedded.form.exogenous', 'late_sector.declared',
                          'codes_generated_mid_construction', 'built_by_step_runner', 'cross_rates.requested_before_build', 'locals_named_like_math_symbols.declared',
                          'rebuilt_with_names_kept_from_before_first_build',
-                         'equation_object_shared_by_sectors.declared')
+                         'equation_object_shared_by_sectors.declared',
+                         'term_built_products_and_quotients_of_locals.declared')
 
     def n_cases(self, tier):
         return 32 if tier == 'quick' else 1200
@@ -65,7 +66,7 @@ class C05(object):
     def make_case(self, rng, idx, tier):
         nz = rng.choice([1, 1, 2, 2, 3])
         spec = M.gen_spec(rng, n_zones=nz, maxtime=2)
-        return {'kind': 'closure', 'spec': spec, 'eseed': rng.getrandbits(30), 'n_embed': rng.randint(1, 6),
+        return {'kind': 'closure', 'spec': spec, 'eseed': rng.getrandbits(30), 'n_embed': rng.randint(1, 6), 'idx': idx,
                 'early_full_codes': rng.random() < 0.3, 'solve': idx % 4 == 0,
                 # how the model is run: the real main(), the same passes by hand, the step-by-step runner the GUI uses
                 # (_GetSteps/_RunAllSteps: fix-up passes before and after equation generation), or built, extended with
@@ -110,6 +111,20 @@ class C05(object):
                 late.AddVariable('Y', 'uses a local name', 'X + 1.0')
                 sectors.append(((ck0, 'LATE'), late))
                 rec.count('late_sector.declared')
+            if case.get('idx', 0) % 4 == 2:
+                # equations built term by term from PRODUCTS and QUOTIENTS of local names (Equation / Term objects, AddTerm)
+                from sfc_models.equation import Equation as _Eq2
+                tsec = rng.choice(sectors)[1]
+                if 'P_unit' not in tsec.EquationBlock:
+                    for nm, val in (('P_unit', '2.0'), ('Q_sold', '3.0'), ('WB_paid', '5.0')):
+                        tsec.AddVariable(nm, 'a local variable', val)
+                    e_ = _Eq2('UNITCOST_L', 'wage bill per unit: a quotient of locals', 'WB_paid/Q_sold')
+                    tsec.AddVariableFromEquation(e_)
+                    e2_ = _Eq2('REV_L', 'revenue less unit cost, added term by term', 'P_unit*Q_sold')
+                    e2_.AddTerm('-WB_paid/Q_sold')
+                    e2_.AddTerm('Q_sold')
+                    tsec.AddVariableFromEquation(e2_)
+                    rec.count('term_built_products_and_quotients_of_locals.declared')
             if case['eseed'] % 3 == 0:
                 # local variables named like math / builtin symbols (pi = inflation, gamma, e, tau, sum, id), used by
                 # their local names in the same sector: they are sector variables like any other
